@@ -108,45 +108,65 @@ def referrerDelete (s : State) (r : String) (subject : String) (d : Desc) : Stat
 
 def manLoc (r : String) (d : Dig) : String := s!"manifest:{r}:{d.str}"
 
+/-- what an accepted manifest push will do -/
+structure Accepted where
+  d : Dig
+  mt : String
+  tag : String
+  children : List Desc
+  subject : String
+  refd : Desc
+  len : Nat
+
+def refuse (status : Nat) (code : String) : Except Resp α := .error { status := status, code := code }
+
+/-- every check of manifestPut, in the handler's order; no state is touched -/
+def mValidate (s : State) (r ref ct qd bodyName : String) : Except Resp Accepted := do
+  if !(ct = "" ∨ isImageMT ct ∨ isIndexMT ct) then refuse 400 "MANIFEST_INVALID"
+  let qExpect : Option Dig ←
+    if qd = "" then pure none else match DigArg.parse qd with
+      | .ok d => pure (some d)
+      | .bad => refuse 400 "DIGEST_INVALID"
+  let (tag, expect) : String × Option Dig ←
+    if isTag ref then pure (ref, qExpect) else match DigArg.parse ref with
+      | .ok d => pure ("", some d)
+      | .bad => refuse 400 "DIGEST_INVALID"
+  let alg := match expect with | some e => e.alg | none => Alg.sha256
+  let d : Dig := ⟨alg, bodyName⟩
+  if expect.isSome ∧ expect ≠ some d then refuse 400 "DIGEST_INVALID"
+  let b := s.body bodyName
+  let mt := if ct = "" then detect b else ct
+  let rp := s.repo r
+  if isImageMT mt then
+    match b.asImage with
+    | none => refuse 400 "MANIFEST_INVALID"
+    | some v =>
+      if !(hasBlob rp v.cfg ∧ v.layers.all (hasBlob rp)) then refuse 400 "MANIFEST_BLOB_UNKNOWN"
+      pure { d := d, mt := mt, tag := tag, children := [], subject := v.subj, len := b.len,
+             refd := { mt := mt, dig := d.str, size := b.len, atype := if v.atype = "" then v.cfgMt else v.atype, rann := v.rann } }
+  else if isIndexMT mt then
+    match b.asIndex with
+    | none => refuse 400 "MANIFEST_INVALID"
+    | some v =>
+      if !(v.children.all fun c => hasBlob rp c.dig) then refuse 400 "MANIFEST_BLOB_UNKNOWN"
+      pure { d := d, mt := mt, tag := tag, children := v.children, subject := v.subj, len := b.len,
+             refd := { mt := mt, dig := d.str, size := b.len, atype := v.atype, rann := v.rann } }
+  else refuse 400 "MANIFEST_INVALID"
+
+/-- the effects of an accepted push: blob, index entry, referrers response -/
+def mCommit (s : State) (r bodyName : String) (a : Accepted) : State × Resp :=
+  let s1 := putContent s r a.d bodyName
+  let entry : Desc := { mt := a.mt, dig := a.d.str, size := a.len, ann := if a.tag = "" then {} else { isNil := false, tag := a.tag } }
+  let s2 := indexInsert s1 r entry a.children
+  let s3 := if a.subject ≠ "" then referrerAdd s2 r a.subject a.refd else s2
+  (s3, { status := 201, loc := manLoc r a.d, dcd := a.d.str, subj := a.subject })
+
 /-- manifest PUT; `ct` is the cleaned Content-Type token ("" = absent), `qd` the ?digest= parameter -/
 def mPut (s : State) (r : String) (ref : String) (ct : String) (qd : String) (bodyName : String) : State × Resp :=
   let s := s.setRepo (s.repo r)
-  if !(ct = "" ∨ isImageMT ct ∨ isIndexMT ct) then (s, { status := 400, code := "MANIFEST_INVALID" }) else
-  let qParsed : Option (Option Dig) := if qd = "" then some none else match DigArg.parse qd with | .ok d => some (some d) | .bad => none
-  match qParsed with
-  | none => (s, { status := 400, code := "DIGEST_INVALID" })
-  | some qExpect =>
-    let argParsed : Option (String × Option Dig) :=
-      if isTag ref then some (ref, qExpect)
-      else match DigArg.parse ref with | .ok d => some ("", some d) | .bad => none
-    match argParsed with
-    | none => (s, { status := 400, code := "DIGEST_INVALID" })
-    | some (tag, expect) =>
-      let alg := match expect with | some e => e.alg | none => Alg.sha256
-      let d : Dig := ⟨alg, bodyName⟩
-      if expect.isSome ∧ expect ≠ some d then (s, { status := 400, code := "DIGEST_INVALID" }) else
-      let b := s.body bodyName
-      let mt := if ct = "" then detect b else ct
-      let rp := s.repo r
-      let finish := fun (s : State) (children : List Desc) (subject : String) (refd : Desc) =>
-        let s1 := putContent s r d bodyName
-        let entry : Desc := { mt := mt, dig := d.str, size := b.len, ann := if tag = "" then {} else { isNil := false, tag := tag } }
-        let s2 := indexInsert s1 r entry children
-        let s3 := if subject ≠ "" then referrerAdd s2 r subject refd else s2
-        (s3, ({ status := 201, loc := manLoc r d, dcd := d.str, subj := subject } : Resp))
-      if isImageMT mt then
-        match b.asImage with
-        | none => (s, { status := 400, code := "MANIFEST_INVALID" })
-        | some v =>
-          if !(hasBlob rp v.cfg ∧ v.layers.all (hasBlob rp)) then (s, { status := 400, code := "MANIFEST_BLOB_UNKNOWN" })
-          else finish s [] v.subj { mt := mt, dig := d.str, size := b.len, atype := if v.atype = "" then v.cfgMt else v.atype, rann := v.rann }
-      else if isIndexMT mt then
-        match b.asIndex with
-        | none => (s, { status := 400, code := "MANIFEST_INVALID" })
-        | some v =>
-          if !(v.children.all fun c => hasBlob rp c.dig) then (s, { status := 400, code := "MANIFEST_BLOB_UNKNOWN" })
-          else finish s v.children v.subj { mt := mt, dig := d.str, size := b.len, atype := v.atype, rann := v.rann }
-      else (s, { status := 400, code := "MANIFEST_INVALID" })
+  match mValidate s r ref ct qd bodyName with
+  | .error e => (s, e)
+  | .ok a => mCommit s r bodyName a
 
 def getDesc (ix : Index) (arg : String) : Option Desc :=
   if ix.manifests.isEmpty then none
